@@ -4,6 +4,7 @@ import shutil
 
 import cppbuild
 import cpprep
+import findings
 import pyrep
 import workers
 from build import Definition, named, fl, interp
@@ -168,6 +169,10 @@ def replay_cpp(ctx, scns, cse_settings=(False, True), kind="ekf", presentation="
     return results
 
 
+def _undefined_everywhere(scn):
+    return pyrep.undefined_everywhere(scn)
+
+
 def record(ctx, results, key_prefix="cpp:"):
     n_ok = n_val = 0
     for r in results:
@@ -178,14 +183,21 @@ def record(ctx, results, key_prefix="cpp:"):
             ctx.dropped += 1
             ctx.notes.append(r["detail"][:200])
             continue
+        if r["status"] == "generate-failed" and _undefined_everywhere(s):
+            # an update / sensor expression that is undefined at EVERY point (e.g. 2 / (tanh(y) - tanh(y))**2: sympy folds it to
+            # zoo, which has no C spelling): the properties quantify over points where the expressions are defined -- no claim
+            ctx.dropped += 1
+            ctx.notes.append("definition undefined everywhere, C++ generation refused: " + r["detail"][:120])
+            continue
         if r["status"] in ("generate-failed", "build-failed", "run-failed"):
             ctx.violation(key_prefix + r["status"], "cse=%s %s" % (r["cse"], r["detail"][:400]), payload)
             continue
         n_val += r["values"]
         if r["mismatches"]:
             m = r["mismatches"][0]
-            ctx.violation(key_prefix + m["what"], "cse=%s step=%s %s name=%s expected=%s observed=%s" %
-                          (r["cse"], m["step"], m["what"], m["name"], m["expected"], m["observed"]), payload)
+            key = findings.KEY if findings.attributed(s, r["mismatches"]) else key_prefix + m["what"]
+            ctx.violation(key, "%scse=%s step=%s %s name=%s expected=%s observed=%s" %
+                          (key_prefix, r["cse"], m["step"], m["what"], m["name"], m["expected"], m["observed"]), payload)
         else:
             n_ok += 1
     return {"cpp_replays_ok": n_ok, "cpp_values_compared": n_val}
